@@ -109,3 +109,19 @@ Proof.
   rewrite (rmloop norm_id ps 0%Z u Hnd). reflexivity.
 Qed.
 
+
+(* ---------- CIDRList (v2): Contains / Add / Remove are the tag list's under another name (the receiver converted to a pointer to a
+   TagList: the same list seen through the tag list's methods); Set empties the list and adds the lower-cased text split on commas ---------- *)
+Lemma src_cidr_contains u p : V2.CIDRList_Contains u p = mem (norm_tag p) u.
+Proof. exact (src_tag_contains u p). Qed.
+Lemma src_cidr_add u ps : V2.CIDRList_Add u ps = fold_left (spec_add1 norm_tag) ps u.
+Proof. exact (src_tag_add u ps). Qed.
+Lemma src_cidr_remove u ps : NoDup u -> V2.CIDRList_Remove u ps = fold_left (spec_remove1 norm_tag) ps u.
+Proof. exact (src_tag_remove u ps). Qed.
+Lemma src_cidr_set (c : list string) (values : string) : V2.CIDRList_Set c values = view (cidr_set values).
+Proof.
+  unfold V2.CIDRList_Set, cidr_set. cbv zeta. rewrite src_cidr_add.
+  change (go_split (to_lower values) ",") with (split comma (to_lower values)).
+  destruct (add_both norm_tag norm_tag_idempotent (split comma (to_lower values)) nil_slice (inv_nil norm_tag)) as [Hv _].
+  rewrite Hv. reflexivity.
+Qed.
